@@ -151,7 +151,7 @@ func runC02(c *Ctx, r *Report) {
 		}
 	}
 
-	r.Rule("C02/skip-only-identified", "the chunk decoder steps over a single byte of the frame only where that byte was compared equal to a framing constant", 2)
+	r.Rule("C02/skip-only-identified", "the chunk decoder steps over a single byte of the frame only where that byte was compared equal to a framing constant", 0)
 	checkSkipOnlyIdentified(c, r, "C02/skip-only-identified", fns)
 	checkFailedOnParseError(c, r)
 	checkTerminatorRequired(c, r)
